@@ -1,7 +1,9 @@
-(* C03 — progress of resolveConflict unless the F15 flag is raised. *)
+(* C03 — progress of resolveConflict (F15 repaired): with an honest peer a call
+   returns a checkpoint list or bans one of the peers that sent a list; the
+   retry loop of cfHandler therefore ends. *)
 From stdpp Require Import gmap list.
 From Coq Require Import ZArith Lia.
-From Verif Require Import S1.Model C03.Model C03.Spec C03.Proofs C03.ProofsR.
+From Verif Require Import S1.Model C03.Model C03.Spec C03.ProofsS C03.ProofsF C03.Proofs C03.ProofsU C03.ProofsR.
 Open Scope Z_scope.
 
 Section Total.
@@ -43,23 +45,126 @@ Proof.
 Qed.
 End Total.
 
-(* If the ghost flag is clear, resolveConflict either returns a checkpoint
-   list or has banned somebody: under the hypotheses of
-   C03_honest_wins_checkpoints, an available environment (header and block of
-   every height asked can be fetched) and a readable filter store. *)
-Theorem resolve_progress_unless hard v env raws hint cps p tc tfilt bans res flag :
+(* ---------- why checkCFCheckptSanity reports index j ---------- *)
+Lemma sanity_loop_cause n : forall i cps v tip d,
+  sanity_loop n i cps v tip = SaneDiff d ->
+  exists j : nat, d = Z.of_nat j /\
+    ((exists x y, In x (vals_at cps j) /\ In y (vals_at cps j) /\ x <> y) \/
+     (exists x hd, In x (vals_at cps j) /\
+                   v_fh v (u32 ((Z.of_nat j + 1) * INTERVAL)) = Some hd /\ hd <> x)).
+Proof.
+  induction n as [|n IH]; intros i cps v tip d; cbn [sanity_loop]; [done|].
+  destruct (vals_at cps i) as [|c rest] eqn:E; [apply IH|].
+  destruct (forallb (Z.eqb c) rest) eqn:Ef; cbn [negb].
+  2:{ intros [= <-]. exists i. split; [done|]. left.
+      destruct (all_eq_false (c :: rest) Ef) as (x & y & Hx & Hy & Hne).
+      exists x, y. rewrite E. done. }
+  destruct (_ <=? tip); [|apply IH].
+  destruct (v_fh v _) as [hd|] eqn:Eh; [|done].
+  destruct (hd =? c) eqn:Ec; [apply IH|].
+  intros [= <-]. exists i. split; [done|]. right. exists c, hd. rewrite E.
+  split; [by left|]. split; [done|]. by apply Z.eqb_neq.
+Qed.
+
+Lemma check_sanity_cause cps v d :
+  check_sanity cps v = SaneDiff d ->
+  exists j : nat, d = Z.of_nat j /\
+    ((exists q l q' l' x y, In (q, l) cps /\ In (q', l') cps /\
+                            l !! j = Some x /\ l' !! j = Some y /\ x <> y) \/
+     (exists q l x hd, In (q, l) cps /\ l !! j = Some x /\
+                       v_fh v (u32 ((Z.of_nat j + 1) * INTERVAL)) = Some hd /\ hd <> x)).
+Proof.
+  unfold check_sanity. destruct (v_ftip v) as [[t tip]|]; [|done]. intros Hs.
+  destruct (sanity_loop_cause _ _ _ _ _ _ Hs) as (j & -> & Hc). exists j. split; [done|].
+  destruct Hc as [(x & y & Hx & Hy & Hne)|(x & hd & Hx & Hh & Hne)].
+  - left. apply In_vals_at in Hx as (q & l & Hq & Hl). apply In_vals_at in Hy as (q' & l' & Hq' & Hl').
+    exists q, l, q', l', x, y. done.
+  - right. apply In_vals_at in Hx as (q & l & Hq & Hl). exists q, l, x, hd. done.
+Qed.
+
+(* ---------- the request covers the whole checkpoint interval ---------- *)
+(* cfHandler caps every checkpoint list at the block header tip, so the
+   getcfheaders request made at the start of a checkpoint interval that has a
+   checkpoint asks for at least INTERVAL+1 filter hashes. *)
+Lemma cf_range_interval v h tx tiph stop n :
+  v_btip v = Some (tx, tiph) -> 0 <= tiph < 1000000 -> 0 <= h -> h + INTERVAL <= tiph ->
+  cf_range v h = Some (stop, n) -> INTERVAL + 1 <= n <= MAXCFH.
+Proof.
+  intros Ht Hb Hh Hcap Hc. pose proof (cf_range_bound _ _ _ _ Hc) as Hn. split; [|lia].
+  unfold cf_range in Hc. rewrite Ht in Hc. unfold INTERVAL, MAXCFH in *.
+  rewrite (u32_small (tiph - h)) in Hc by (unfold U32; lia).
+  destruct (tiph - h >=? 2000) eqn:E.
+  - rewrite (u32_small (h + 2000 - 1)) in Hc by (unfold U32; lia).
+    destruct (v_bh v _); [|done]. injection Hc as _ <-.
+    rewrite u32_small by (unfold U32; lia). lia.
+  - injection Hc as _ <-. rewrite u32_small by (unfold U32; lia). lia.
+Qed.
+
+(* after the mismatch resolution every remaining answer has the honest
+   filter hashes *)
+Lemma settled_hashes tm p hs hs' n :
+  0 <= n < 1000000 -> all_len (Z.to_nat n) hs ->
+  (forall q, In q hs' -> In q hs) -> honest_in tm p hs' ->
+  (forall i, In i (seq 0 (zn n)) -> mismatch_at hs' (Z.of_nat i) = false) ->
+  forall q m, In (q, m) hs' -> m_hashes m = m_hashes tm.
+Proof.
+  intros Hn Hlen Hsub Hh Hmm q m Hq.
+  pose proof (Hlen _ (Hsub _ Hq)) as L1. pose proof (Hlen _ (Hsub _ (proj1 Hh))) as L2. cbn [snd] in L1, L2.
+  apply list_ext_lookup; [congruence|].
+  intros i x y Hx Hy.
+  assert (Hi : (i < zn n)%nat).
+  { apply lookup_lt_Some in Hx. unfold zn.
+    replace ((0 <=? n) && (n <? 1000000)) with true; [lia|].
+    symmetry. apply andb_true_iff. split; [apply Z.leb_le|apply Z.ltb_lt]; lia. }
+  assert (Hi2 : Z.of_nat i < 1000000) by (pose proof (zn_lt n); lia).
+  specialize (Hmm i ltac:(apply in_seq; lia)). rewrite mismatch_false in Hmm.
+  apply (Hmm (q, m) (p, tm)); [done|apply Hh|by apply zget_lookup|by apply zget_lookup].
+Qed.
+
+(* ---------- hypotheses of the progress theorem ---------- *)
+(* the honest peer p at every start height: its (true) answer tm is among the
+   answers; every index asked is in the class and header/block/filters can be
+   fetched; every accepted answer names the same previous header; and the
+   checkpoint tc[d] of p is the filter header its cfheaders for the interval
+   d determine *)
+Definition honest_serves_avail (H : Z -> Z -> Z) (v : cview) (env : denv) (raws : list rawresp)
+           (p : Z) (tc : list Z) (tfilt : Z -> Z) : Prop :=
+  forall startH, exists tm,
+    honest_in tm p (fst (get_headers v startH raws)) /\
+    (forall i : nat, (i < zn (snd (get_headers v startH raws)))%nat ->
+        good_idx env tfilt tm startH p (Z.of_nat i) /\ env_avail env startH (Z.of_nat i)) /\
+    (forall q mq, In (q, mq) (fst (get_headers v startH raws)) -> m_prev mq = m_prev tm) /\
+    (forall d c, startH = u32 (d * INTERVAL) -> zget tc d = Some c ->
+        chain_last H (m_prev tm) (take (zn (INTERVAL + 1)) (m_hashes tm)) = c).
+
+(* the filter header store holds nothing that contradicts the honest list *)
+Definition store_agrees (v : cview) (tc : list Z) : Prop :=
+  forall (i : nat) c hd, tc !! i = Some c ->
+    v_fh v (u32 ((Z.of_nat i + 1) * INTERVAL)) = Some hd -> hd = c.
+
+Lemma honest_serves_avail_weaken H v env raws p tc tfilt :
+  honest_serves_avail H v env raws p tc tfilt -> honest_serves H v env raws p tc tfilt.
+Proof.
+  intros Hs startH. destruct (Hs startH) as (tm & Hh & Hg & _ & Hc). exists tm.
+  split; [done|]. split; [intros i Hi; apply Hg, Hi|].
+  intros d ->. unfold cp_contradicts. destruct (zget tc d) as [c|] eqn:Ec; [|done].
+  destruct (_ <? _); [done|]. rewrite (Hc d c eq_refl Ec), Z.eqb_refl. done.
+Qed.
+
+(* resolveConflict makes progress: it returns a checkpoint list, or it has
+   banned one of the peers whose list it was given. *)
+Theorem resolve_progress H hard v env raws hint cps p tc tfilt tx tiph bans res :
   In (p, tc) cps -> (forall l, In (p, l) cps -> l = tc) ->
   peer_hard_bad hard tc = false ->
   (forall q l, In (q, l) cps -> (length l <= length tc)%nat) ->
-  (forall startH, exists tm,
-      honest_in tm p (fst (get_headers v startH raws)) /\
-      forall i : nat, (i < zn (snd (get_headers v startH raws)))%nat ->
-                      good_idx env tfilt tm startH p (Z.of_nat i) /\ env_avail env startH (Z.of_nat i)) ->
+  v_btip v = Some (tx, tiph) -> 0 <= tiph < 1000000 -> zlen tc * INTERVAL <= tiph ->
+  honest_serves_avail H v env raws p tc tfilt ->
+  store_agrees v tc ->
   (forall l, check_sanity l v <> SaneErr) ->
-  resolve_conflict hard v env raws hint cps = (bans, res, flag) ->
-  flag = 0 -> res <> None \/ bans <> [].
+  resolve_conflict H hard v env raws hint cps = (bans, res) ->
+  res <> None \/ exists q, In q bans /\ In q (List.map fst cps).
 Proof.
-  intros Hp Huniq Hhard Hlen Hhon Hstore.
+  intros Hp Huniq Hhard Hlen Htip Htipb Hcap Hhon Hstore Hnoerr.
   unfold resolve_conflict, resolve_conflict_ix. cbv zeta.
   set (bad0 := List.map fst (List.filter (fun c : Z * list Z => peer_hard_bad hard (snd c)) cps)).
   assert (Hpb0 : ~ In p bad0).
@@ -70,24 +175,39 @@ Proof.
   { apply remove_peers_In. split; [done|]. cbn. by apply mem_false. }
   assert (Hlen1 : forall q l, In (q, l) cps1 -> (length l <= length tc)%nat).
   { intros q l Hq. apply remove_peers_In in Hq as [Hq _]. eauto. }
+  assert (Hin1 : forall q l, In (q, l) cps1 -> In q (List.map fst cps)).
+  { intros q l Hq. apply remove_peers_In in Hq as [Hq _]. apply in_map_iff. exists (q, l). done. }
   rewrite (match_ne cps1) by (eapply In_ne; exact Hp1).
   destruct (check_sanity cps1 v) as [|d|] eqn:Es.
-  - intros [= <- <- <-] _. left.
+  - intros [= <- <-]. left.
     destruct (choose hint cps1) as [x|] eqn:Ec; [done|].
     unfold choose in Ec. destruct (List.find _ cps1); [done|]. destruct cps1; [destruct Hp1|done].
   - destruct (check_sanity_diff cps1 v d Es) as (j & -> & Hj & Hagree).
+    destruct (check_sanity_cause cps1 v _ Es) as (j' & Ej & Hcause).
+    apply Nat2Z.inj in Ej. subst j'.
     assert (Hjtc : (j < length tc)%nat).
     { pose proof (max_len_le cps1 (length tc) Hlen1). lia. }
+    assert (Hjb : (Z.of_nat j + 1) * INTERVAL <= tiph).
+    { unfold zlen, INTERVAL in *. nia. }
     set (cps2 := List.filter (fun c : Z * list Z => negb (zlen (snd c) <? Z.of_nat j)) cps1).
     assert (Hp2 : In (p, tc) cps2).
     { unfold cps2. apply filter_In. split; [done|]. cbn [snd]. apply negb_true_iff, Z.ltb_ge.
       unfold zlen. lia. }
     rewrite (match_ne cps2) by (eapply In_ne; exact Hp2).
     set (startH := u32 (Z.of_nat j * INTERVAL)).
-    destruct (Hhon startH) as (tm & Hh & Hgood).
-    destruct (get_headers v startH raws) as [hs n] eqn:Eg. cbn [fst snd] in Hh, Hgood.
-    destruct (negb (all_eq (List.map (fun c : Z * cfmsg => m_prev (snd c)) hs))).
-    { intros [= <- <- <-]. destruct bad0; [discriminate|]. intros _. by right. }
+    assert (EstartH : startH = Z.of_nat j * INTERVAL).
+    { unfold startH. apply u32_small. unfold INTERVAL, U32 in *. lia. }
+    destruct (Hhon startH) as (tm & Hh & Hgood & Hprevs & Hcons).
+    destruct (get_headers v startH raws) as [hs n] eqn:Eg. cbn [fst snd] in Hh, Hgood, Hprevs.
+    pose proof (get_headers_len _ _ _ _ _ Eg) as Hlens.
+    assert (Hn : INTERVAL + 1 <= n <= MAXCFH).
+    { unfold get_headers in Eg. destruct (cf_range v startH) as [[stop n']|] eqn:Ec.
+      - injection Eg as _ <-. eapply cf_range_interval; eauto; unfold INTERVAL in *; lia.
+      - injection Eg as <- _. destruct Hh as [[] _]. }
+    replace (negb (all_eq (List.map (fun c : Z * cfmsg => m_prev (snd c)) hs))) with false.
+    2:{ symmetry. apply negb_false_iff, all_eq_spec. intros x y Hx Hy.
+        apply in_map_iff in Hx as ([qx mx] & <- & Hx). apply in_map_iff in Hy as ([qy my] & <- & Hy).
+        cbn [snd]. rewrite (Hprevs _ _ Hx), (Hprevs _ _ Hy). done. }
     unfold full_ix.
     assert (Hg : forall i : nat, In i (seq 0 (zn n)) ->
                  good_idx env tfilt tm startH p (Z.of_nat i) /\ env_avail env startH (Z.of_nat i)).
@@ -95,23 +215,181 @@ Proof.
     destruct (settle_all_total env tfilt tm startH p (seq 0 (zn n)) hs [] Hg Hh (fun x => x)) as (hs' & bans1 & Esa).
     rewrite Esa.
     destruct (settle_all_safe env tfilt tm startH p (seq 0 (zn n)) hs [] _ bans1
-                (fun i Hi => proj1 (Hg i Hi)) Hh (fun x => x) Esa) as (Hpb1 & _ & (Hsub & Hh' & _ & Hrem)).
+                (fun i Hi => proj1 (Hg i Hi)) Hh (fun x => x) Esa) as (Hpb1 & _ & (Hsub & Hh' & Hmm & Hrem)).
     set (cps3 := remove_peers bans1 cps2).
     set (silent := List.map fst (List.filter (fun c : Z * list Z => negb (mem (fst c) (List.map fst hs'))) cps3)).
     set (cps4 := remove_peers silent cps3).
-    assert (Hp3 : In (p, tc) cps3).
-    { apply remove_peers_In. split; [done|]. cbn. by apply mem_false. }
-    assert (Hps : ~ In p silent).
-    { unfold silent. intros Hin. apply in_map_iff in Hin as ([q l] & Eq & Hin). cbn in Eq. subst q.
-      apply filter_In in Hin as [_ Hb]. cbn [fst] in Hb. apply negb_true_iff, mem_false in Hb.
-      apply Hb. apply in_map_iff. exists (p, tm). split; [done|]. apply Hh'. }
-    assert (Hp4 : In (p, tc) cps4).
-    { apply remove_peers_In. split; [done|]. cbn. by apply mem_false. }
-    destruct (check_sanity cps4 v) as [|d'|] eqn:Es4.
-    + destruct (choose hint cps4) as [[c lc]|] eqn:Ec.
-      * intros [= <- <- <-] _. by left.
-      * exfalso. unfold choose in Ec. destruct (List.find _ cps4); [done|]. destruct cps4; [destruct Hp4|done].
-    + intros [= <- <- <-]. destruct (bad0 ++ bans1 ++ silent); [discriminate|]. intros _. by right.
-    + exfalso. by apply (Hstore cps4).
-  - exfalso. by apply (Hstore cps1).
+    set (cpliars := List.map fst (List.filter (fun c : Z * list Z =>
+                      match msg_of (fst c) hs' with
+                      | Some m => cp_contradicts H (Z.of_nat j) (snd c) m
+                      | None => false
+                      end) cps4)).
+    set (cps5 := remove_peers cpliars cps4).
+    (* the header at the end of the interval, as determined by the agreed answers *)
+    set (Cstar := chain_last H (m_prev tm) (take (zn (INTERVAL + 1)) (m_hashes tm))).
+    assert (Hjsmall : Z.of_nat j < 1000000) by (unfold INTERVAL in *; lia).
+    destruct (lookup_lt_is_Some_2 tc j Hjtc) as [cj Hcj].
+    assert (Ecj : Cstar = cj).
+    { apply (Hcons (Z.of_nat j)); [done|]. by apply zget_lookup. }
+    assert (Hhashes : forall q m, In (q, m) hs' -> m_hashes m = m_hashes tm).
+    { apply (settled_hashes tm p hs hs' n); try done. unfold INTERVAL, MAXCFH in *. lia. }
+    (* a list that names another header at index j is thrown out *)
+    assert (HK : forall q l x, In (q, l) cps1 -> l !! j = Some x -> x <> Cstar ->
+                 In q (bad0 ++ bans1 ++ silent ++ cpliars) /\ In q (List.map fst cps)).
+    { intros q l x Hq Hx Hne. split; [|eauto]. rewrite !in_app_iff.
+      assert (Hq2 : In (q, l) cps2).
+      { unfold cps2. apply filter_In. split; [done|]. cbn [snd]. apply negb_true_iff, Z.ltb_ge.
+        apply lookup_lt_Some in Hx. unfold zlen. lia. }
+      destruct (mem q bans1) eqn:Em1; [right; left; by apply mem_In|].
+      assert (Hq3 : In (q, l) cps3) by (by apply remove_peers_In).
+      destruct (mem q silent) eqn:Ems; [right; right; left; by apply mem_In|].
+      assert (Hq4 : In (q, l) cps4) by (by apply remove_peers_In).
+      right. right. right.
+      destruct (mem q (List.map fst hs')) eqn:Emh.
+      2:{ exfalso. apply mem_false in Ems. apply Ems. unfold silent. apply in_map_iff.
+          exists (q, l). split; [done|]. apply filter_In. split; [done|]. cbn [fst]. by rewrite Emh. }
+      apply mem_In in Emh. destruct (msg_of_Some q hs' Emh) as [m Em].
+      pose proof (msg_of_In _ _ _ Em) as Hqm.
+      unfold cpliars. apply in_map_iff. exists (q, l). split; [done|]. apply filter_In. split; [done|].
+      cbn [fst snd]. rewrite Em. unfold cp_contradicts. rewrite (zget_lookup l j x Hjsmall Hx).
+      rewrite (Hhashes _ _ Hqm), (Hprevs _ _ (Hsub _ Hqm)).
+      replace (zlen (m_hashes tm) <? INTERVAL + 1) with false.
+      - apply negb_true_iff, Z.eqb_neq. fold Cstar. congruence.
+      - symmetry. apply Z.ltb_ge. pose proof (Hlens _ (Hsub _ (proj1 Hh'))) as L. cbn [snd] in L.
+        unfold zlen. unfold INTERVAL, MAXCFH in *. lia. }
+    (* hence somebody who sent a list has been banned *)
+    assert (HW : exists q, In q (bad0 ++ bans1 ++ silent ++ cpliars) /\ In q (List.map fst cps)).
+    { destruct Hcause as [(q & l & q' & l' & x & y & Hq & Hq' & Hx & Hy & Hne)|(q & l & x & hd & Hq & Hx & Hhd & Hne)].
+      - destruct (decide (x = Cstar)) as [Ex|Ex].
+        + exists q'. apply (HK q' l' y Hq' Hy). congruence.
+        + exists q. exact (HK q l x Hq Hx Ex).
+      - destruct (decide (x = Cstar)) as [Ex|Ex].
+        + exfalso. apply Hne. rewrite Ex, Ecj. exact (Hstore j cj hd Hcj Hhd).
+        + exists q. exact (HK q l x Hq Hx Ex). }
+    destruct (check_sanity cps5 v) as [|d'|] eqn:Es5.
+    + destruct (choose hint cps5) as [[c lc]|] eqn:Ec.
+      * intros [= <- <-]. by left.
+      * intros [= <- <-]. by right.
+    + intros [= <- <-]. by right.
+    + intros [= <- <-]. by right.
+  - exfalso. by apply (Hnoerr cps1).
 Qed.
+
+Print Assumptions resolve_progress.
+
+(* ---------- the retry loop of cfHandler ---------- *)
+Section Retry.
+Variable H : Z -> Z -> Z.
+Variable hard : Z -> option Z.
+Variable v : cview.
+Variable p : Z.
+Variable tc : list Z.
+Variable tfilt : Z -> Z.
+
+(* what holds in every round: the honest peer p is connected and sends tc *)
+Definition round_ok (r : round) : Prop :=
+  In (p, tc) (rd_cps r) /\ (forall l, In (p, l) (rd_cps r) -> l = tc) /\
+  (forall q l, In (q, l) (rd_cps r) -> (length l <= length tc)%nat /\ l <> []) /\
+  NoDup (List.map fst (rd_cps r)) /\
+  honest_serves_avail H v (rd_env r) (rd_raws r) p tc tfilt.
+
+Definition not_banned (r : round) : list Z :=
+  List.filter (fun q => negb (mem q (fst (resolve_conflict H hard v (rd_env r) (rd_raws r) (rd_hint r) (rd_cps r)))))
+              (List.map fst (rd_cps r)).
+
+(* a banned peer is disconnected: the lists of the next round come from
+   peers of this round that were not banned in it (no new peers) *)
+Fixpoint rounds_ok (rounds : list round) : Prop :=
+  match rounds with
+  | [] => True
+  | r :: rest =>
+    round_ok r /\
+    match rest with
+    | [] => True
+    | r' :: _ => forall q, In q (List.map fst (rd_cps r')) -> In q (not_banned r)
+    end /\
+    rounds_ok rest
+  end.
+
+Lemma filter_len_le (f : Z -> bool) l : (length (List.filter f l) <= length l)%nat.
+Proof. induction l as [|x l IH]; [done|]. cbn [List.filter]. destruct (f x); cbn [length]; lia. Qed.
+
+Lemma filter_shorter (f : Z -> bool) l q : In q l -> f q = false -> (length (List.filter f l) < length l)%nat.
+Proof.
+  induction l as [|x l IH]; intros Hq Hf; [destruct Hq|]. cbn [List.filter].
+  destruct Hq as [->|Hq].
+  - rewrite Hf. pose proof (filter_len_le f l). cbn [length]. lia.
+  - specialize (IH Hq Hf). destruct (f x); cbn [length]; lia.
+Qed.
+
+Theorem cf_retry_terminates tx tiph rounds r0 rest :
+  peer_hard_bad hard tc = false ->
+  v_btip v = Some (tx, tiph) -> 0 <= tiph < 1000000 -> zlen tc * INTERVAL <= tiph ->
+  store_agrees v tc -> (forall l, check_sanity l v <> SaneErr) ->
+  rounds = r0 :: rest -> rounds_ok rounds ->
+  (length (rd_cps r0) <= length rounds)%nat ->
+  ~ In p (fst (cf_retry H hard v rounds)) /\
+  exists l, snd (cf_retry H hard v rounds) = Some l /\ l <> [] /\
+            forall (i : nat) x y, l !! i = Some x -> tc !! i = Some y -> x = y.
+Proof.
+  intros Hhard Htip Htipb Hcap Hstore Hnoerr.
+  revert r0 rest. induction rounds as [|r rounds IH]; intros r0 rest [= <- <-] Hok Hlen.
+  destruct Hok as (Hr & Hnext & Hokrest).
+  destruct Hr as (Hp & Huniq & Hlens & Hnd & Hhon).
+  cbn [cf_retry].
+  destruct (resolve_conflict H hard v (rd_env r) (rd_raws r) (rd_hint r) (rd_cps r)) as [bans res] eqn:Er.
+  pose proof (resolve_honest_wins_eq H hard v (rd_env r) (rd_raws r) (rd_hint r) (rd_cps r) p tc tfilt bans res
+                Hp Huniq Hhard (fun q l Hq => proj1 (Hlens q l Hq))
+                (honest_serves_avail_weaken _ _ _ _ _ _ _ Hhon) Er) as (Hpb & Hval & _).
+  pose proof (resolve_progress H hard v (rd_env r) (rd_raws r) (rd_hint r) (rd_cps r) p tc tfilt tx tiph bans res
+                Hp Huniq Hhard (fun q l Hq => proj1 (Hlens q l Hq)) Htip Htipb Hcap Hhon Hstore Hnoerr Er) as Hprog.
+  assert (Hne : forall l, res = Some l -> exists q, In (q, l) (rd_cps r)).
+  { clear -Er. intros l ->. revert Er. unfold resolve_conflict, resolve_conflict_ix. cbv zeta.
+    set (bad0 := List.map fst _). set (cps1 := remove_peers bad0 (rd_cps r)).
+    destruct cps1 as [|c1 cps1'] eqn:E1; [done|]. rewrite <- E1.
+    destruct (check_sanity cps1 v) as [|d|]; [| |done].
+    - destruct (choose (rd_hint r) cps1) as [[q lq]|] eqn:Ec; [|done]. cbn. intros [= _ <-].
+      apply choose_In in Ec. subst cps1. apply remove_peers_In in Ec as [Ec _]. eauto.
+    - destruct (List.filter _ cps1) as [|c2 cps2'] eqn:E2; [done|]. rewrite <- E2.
+      destruct (get_headers v _ (rd_raws r)) as [hs n]. destruct (negb _); [done|].
+      destruct (settle_all _ _ _ _ _) as [[hs'|] bans1]; [|done].
+      destruct (check_sanity _ v); [|done|done].
+      destruct (choose _ _) as [[q lq]|] eqn:Ec; [|done]. intros [= _ <-].
+      apply choose_In in Ec. apply remove_peers_In in Ec as [Ec _]. apply remove_peers_In in Ec as [Ec _].
+      apply remove_peers_In in Ec as [Ec _]. apply filter_In in Ec as [Ec _]. subst cps1.
+      apply remove_peers_In in Ec as [Ec _]. eauto. }
+  assert (Hretry : (res = None \/ res = Some []) ->
+            ~ In p (fst (let '(bans', res0) := cf_retry H hard v rounds in (bans ++ bans', res0))) /\
+            exists l, snd (let '(bans', res0) := cf_retry H hard v rounds in (bans ++ bans', res0)) = Some l /\ l <> [] /\
+                      forall (i : nat) x y, l !! i = Some x -> tc !! i = Some y -> x = y).
+  { intros Hres.
+    assert (Hb : exists q, In q bans /\ In q (List.map fst (rd_cps r))).
+    { destruct Hres as [->| ->]; [destruct Hprog as [Hn|Hb]; [done|exact Hb]|].
+      (* an empty list is never returned: every list given is non-empty *)
+      exfalso.
+      destruct (Hne [] eq_refl) as [q Hq]. by apply (proj2 (Hlens q [] Hq)). }
+    destruct Hb as (qb & Hqb & Hqbin).
+    assert (Hnb : (length (not_banned r) < length (rd_cps r))%nat).
+    { unfold not_banned. rewrite Er. cbn [fst]. rewrite <- (map_length fst (rd_cps r)).
+      apply (filter_shorter _ _ qb Hqbin). apply negb_false_iff, mem_In. done. }
+    assert (Hpnb : In p (not_banned r)).
+    { unfold not_banned. rewrite Er. cbn [fst]. apply filter_In. split.
+      - apply in_map_iff. exists (p, tc). done.
+      - apply negb_true_iff, mem_false. done. }
+    destruct rounds as [|r' rounds'].
+    { exfalso. cbn [length] in Hlen. destruct (not_banned r); [destruct Hpnb|]. cbn [length] in Hnb. lia. }
+    assert (Hlen' : (length (rd_cps r') <= length (r' :: rounds'))%nat).
+    { destruct Hokrest as ((_ & _ & _ & Hnd' & _) & _ & _).
+      rewrite <- (map_length fst (rd_cps r')).
+      pose proof (NoDup_incl_length (proj1 (NoDup_ListNoDup _) Hnd') Hnext) as Hl. cbn [length] in *. lia. }
+    destruct (IH r' rounds' eq_refl Hokrest Hlen') as (Hpb' & l & El & Hlne & Hagree).
+    destruct (cf_retry H hard v (r' :: rounds')) as [bans' res0]. cbn [fst snd] in *.
+    split; [rewrite in_app_iff; tauto|]. exists l. done. }
+  destruct res as [[|x l]|].
+  - apply Hretry. by right.
+  - cbn [fst snd]. split; [done|]. exists (x :: l). split; [done|]. split; [done|]. exact (Hval _ eq_refl).
+  - apply Hretry. by left.
+Qed.
+End Retry.
+
+Print Assumptions cf_retry_terminates.
